@@ -24,7 +24,7 @@ import numpy as np
 PROP = 'C19'
 TARGETS = ['T12', 'T13a', 'T13c', 'T13n', 'T13d', 'T13g', 'T19a', 'T19b', 'T19s', 'T19m', 'T19l', 'T19t', 'T19q', 'T19f',
            # the read skeletons of C05 (the read paths of Model/PMapRead.lean are written with them)
-           'T1', 'T1b', 'T1c', 'T4', 'T11', 'T11b', 'T11c', 'T11d', 'T11e',
+           'T1', 'T1b', 'T1c', 'T4', 'T11', 'T11b', 'T11c',
            # C11's stack assembly (Model/Stack.lean, used by Model/PMapVolume.lean) reads these
            'T13o', 'T13e']
 LEAN_MODULES = ['HdVerif.Props.C19']
